@@ -293,8 +293,10 @@ func ThrowOnContextCancel[T any]() func(Observable[T]) Observable[T] {
 			)
 
 			return func() {
+				// the watcher goroutine is released even if releasing the source panics
+				defer close(done)
+
 				sub.Unsubscribe()
-				close(done)
 			}
 		})
 	}
